@@ -14,7 +14,11 @@
 // app/test_helpers.go, app/test_suite.go (CLI, simulation and test-support code never runs
 // inside the state machine); each row lists the enclosing function and all its transitive callers in the
 // repository's non-test code (reference graph of emit_hooks_callgraph.go), so that Coq can check
-// that only registered helper functions, reached by nothing else, are involved.
+// that only registered helper functions, reached by nothing else, are involved.  Two further scans
+// (emit_maprange_state.go) add rows of the kinds procstate / procstate-ext / procstate-local /
+// procstate-unrecognised (memory of the process that the state machine writes: not rolled back with
+// the store, not shared between processes) and localtime (a Time in the zone of the process used
+// before a UTC conversion).
 package main
 
 import (
@@ -202,6 +206,26 @@ func maprangeAmbients(c *corpus) []maprangeAmbient {
 	return uniq
 }
 
+// one row per (file, function, kind, what), ordered by file and line
+func maprangeSortRows(rows []maprangeAmbient) []maprangeAmbient {
+	seen := map[string]bool{}
+	var uniq []maprangeAmbient
+	for _, a := range rows {
+		k := a.file + "|" + a.fn + "|" + a.kind + "|" + a.what
+		if !seen[k] {
+			seen[k] = true
+			uniq = append(uniq, a)
+		}
+	}
+	sort.SliceStable(uniq, func(i, j int) bool {
+		if uniq[i].file != uniq[j].file {
+			return uniq[i].file < uniq[j].file
+		}
+		return uniq[i].line < uniq[j].line
+	})
+	return uniq
+}
+
 func init() {
 	register("MapRangeTable", func(c *corpus) (string, error) {
 		sites := maprangeSites(c)
@@ -223,12 +247,21 @@ func init() {
 	})
 	register("AmbientTable", func(c *corpus) (string, error) {
 		rows := maprangeAmbients(c)
+		rows = append(rows, maprangeSortRows(maprangeProcState(c))...)
+		rows = append(rows, maprangeSortRows(maprangeLocalTime(c))...)
 		var b strings.Builder
 		b.WriteString("(* GENERATED by tools/goextract (emit_maprange.go) from the repository source - do not edit.\n")
 		b.WriteString("   Goroutines, select, wall clock, randomness, process environment in x/, types/, app/\n")
 		b.WriteString("   (non-test, non-generated; packages under /simulation, /client/, /testutil and\n")
 		b.WriteString("   module_simulation.go and app/test_*.go files are NOT scanned:\n")
-		b.WriteString("   they never run inside the state machine). *)\n")
+		b.WriteString("   they never run inside the state machine).\n")
+		b.WriteString("   Kinds: goroutine select clock random environment (emit_maprange.go);\n")
+		b.WriteString("   procstate procstate-ext procstate-local procstate-unrecognised localtime (emit_maprange_state.go:\n")
+		b.WriteString("   writes to memory of the process through fields of state-machine structs / package-level\n")
+		b.WriteString("   variables, the external types such structs hold, the context-taking types that never leave\n")
+		b.WriteString("   the call stack, aliases the scan cannot follow; Times in the zone of the process used or\n")
+		b.WriteString("   let out of a function before .UTC()).  am_callers = transitive callers of am_func in the\n")
+		b.WriteString("   non-test code (for procstate-ext: the fields that hold the type). *)\n")
 		b.WriteString("From Coq Require Import List String.\nImport ListNotations.\nOpen Scope string_scope.\n\n")
 		b.WriteString("Record ambient_site := mkAmbient { am_file : string; am_func : string; am_kind : string; am_what : string; am_callers : list string }.\n\n")
 		b.WriteString("Definition ambient_table : list ambient_site := [\n")
